@@ -23,12 +23,13 @@ use std::{
 
 use compio_buf::{BufResult, IntoInner, IoBuf, IoBufMut, SetLen};
 use compio_driver::{
-    DriverType, ErrorExt, ProactorBuilder,
-    op::{Accept, Connect, Interest, PollOnce, Read, Recv, RecvFlags},
+    BufferRef, DriverType, ErrorExt, OpCode, ProactorBuilder,
+    op::{Accept, Connect, Interest, PollOnce, Read, Recv, RecvFlags, RecvMulti},
 };
-use compio_runtime::{CancelToken, FutureExt, Runtime, RuntimeBuilder};
+use compio_runtime::{CancelToken, FutureExt, Runtime, RuntimeBuilder, StreamExt as CompioStreamExt, Submit, SubmitMultiStream};
+use futures_util::{Stream, StreamExt as _};
 
-use crate::model::{FdKind, OpKind, Scenario, Step};
+use crate::model::{FdKind, Nest, OpKind, Scenario, Step};
 
 pub const CAP: usize = 2;
 pub const BURST: usize = 3;
@@ -263,6 +264,13 @@ fn drain(fd: RawFd) -> Vec<u8> {
     }
 }
 
+/// bytes waiting in the descriptor (non-destructive)
+fn inq(fd: RawFd) -> usize {
+    let mut n: libc::c_int = 0;
+    cvt(unsafe { libc::ioctl(fd, libc::FIONREAD, &mut n) }, "ioctl(FIONREAD)");
+    n as usize
+}
+
 fn readable(fd: RawFd) -> bool {
     let mut p = libc::pollfd { fd, events: libc::POLLIN, revents: 0 };
     let n = unsafe { libc::poll(&mut p, 1, 0) };
@@ -309,12 +317,26 @@ pub enum OpOut {
     Data(io::Result<usize>, Vec<u8>),
     Accepted(io::Result<usize>, Option<OwnedFd>),
     Unit(io::Result<usize>),
+    /// the stream returned `None`; its items were logged on the way
+    StreamEnd,
 }
 
 pub enum Fin {
     Out(OpOut),
     Elapsed,
+    /// `with_cancel(t).fail_fast()` answered `Err(Cancelled)`
+    FailFast,
+    /// the `JoinHandle` of the task the operation lives in returned an error
+    TaskGone(String),
 }
+
+/// what a stream handed to its consumer
+pub enum SItem {
+    Data(Vec<u8>),
+    Err(io::Error),
+}
+
+type ItemStream = Pin<Box<dyn Stream<Item = io::Result<BufferRef>>>>;
 
 type OpFut = Pin<Box<dyn Future<Output = Fin>>>;
 
@@ -361,6 +383,11 @@ struct OpRun {
     readable_at_submit: bool,
     ready_after_submit: u32,
     dropped_unfinished: bool,
+    /// streams: items the consumer loop received and the oracle has not looked at yet
+    slog: Rc<RefCell<Vec<SItem>>>,
+    /// streams: bytes / error items delivered so far
+    sbytes: usize,
+    serrs: usize,
 }
 
 pub struct Vio {
@@ -430,10 +457,10 @@ impl<'a> World<'a> {
     fn vio(&mut self, oracle: &str, op: Option<usize>, detail: String) {
         let (kind, routes) = match op {
             Some(i) => (
-                self.sc.ops[i].kind.name(),
+                self.sc.ops[i].key_name(),
                 if self.ops[i].routes.is_empty() { "none".to_string() } else { self.ops[i].routes.join("+") },
             ),
-            None => ("-", "-".to_string()),
+            None => ("-".to_string(), "-".to_string()),
         };
         let mut key = format!("{}:{}:{}:{}:{}", driver_name(self.cfg.driver), self.sc.name, oracle, kind, routes);
         if self.cfg.token_invisible && (routes.contains("token") || routes.contains("latereg")) {
@@ -443,7 +470,7 @@ impl<'a> World<'a> {
             "{oracle}: {detail}; driver={} scenario={} ops={:?} history={:?}",
             driver_name(self.cfg.driver),
             self.sc.name,
-            self.sc.ops.iter().map(|o| format!("{}@fd{}/{}", o.kind.name(), o.fd, o.tok_name())).collect::<Vec<_>>(),
+            self.sc.ops.iter().map(|o| o.describe()).collect::<Vec<_>>(),
             self.history
         );
         if self.cfg.verbose {
@@ -472,78 +499,225 @@ impl<'a> World<'a> {
         let spec = self.sc.ops[i];
         let probe = self.ops[i].probe.clone();
         let mine = self.fds[spec.fd].mine().clone();
-        let fdh = OpFd::new(&mine, &probe);
         let tok = spec.tok.map(|k| self.tokens[k].clone());
         OUTER.with(|o| *o.borrow_mut() = spec.outer.map(|k| self.tokens[k].clone()));
         let rt = self.rt;
         self.ops[i].readable_at_submit = readable(mine.as_raw_fd());
+        let nest = spec.nest;
+        let extra = matches!(nest, Nest::Extra | Nest::ExtraPers) && tok.is_some();
         let fut: OpFut = match spec.kind {
             OpKind::Recv => {
-                let sub = rt.submit(Recv::new(fdh, TrackedBuf::new(CAP, probe.clone()), RecvFlags::empty()));
+                let fdh = OpFd::new(&mine, &probe);
+                let sub = run_sub(rt.submit(Recv::new(fdh, TrackedBuf::new(CAP, probe.clone()), RecvFlags::empty())), extra);
                 wrap(
                     async move {
                         let BufResult(r, op) = sub.await;
                         Fin::Out(OpOut::Data(r, op.into_inner().into_snapshot()))
-                    }
-                    ,
+                    },
                     tok,
+                    nest,
                 )
             }
             OpKind::Read => {
-                let sub = rt.submit(Read::new(fdh, TrackedBuf::new(CAP, probe.clone())));
+                let fdh = OpFd::new(&mine, &probe);
+                let sub = run_sub(rt.submit(Read::new(fdh, TrackedBuf::new(CAP, probe.clone()))), extra);
                 wrap(
                     async move {
                         let BufResult(r, op) = sub.await;
                         Fin::Out(OpOut::Data(r, op.into_inner().into_snapshot()))
-                    }
-                    ,
+                    },
                     tok,
+                    nest,
                 )
             }
             OpKind::Accept => {
-                let sub = rt.submit(Accept::new(fdh));
+                let fdh = OpFd::new(&mine, &probe);
+                let sub = run_sub(rt.submit(Accept::new(fdh)), extra);
                 wrap(
                     async move {
                         let BufResult(r, op) = sub.await;
                         let sock = if r.is_ok() { Some(OwnedFd::from(op.into_inner().0)) } else { None };
                         Fin::Out(OpOut::Accepted(r, sock))
-                    }
-                    ,
+                    },
                     tok,
+                    nest,
                 )
             }
             OpKind::Connect => {
+                let fdh = OpFd::new(&mine, &probe);
                 let FdEnv::Blackhole { addr, .. } = &self.fds[spec.fd] else { unreachable!() };
-                let sub = rt.submit(Connect::new(fdh, addr.clone()));
+                let sub = run_sub(rt.submit(Connect::new(fdh, addr.clone())), extra);
                 wrap(
                     async move {
                         let BufResult(r, _op) = sub.await;
                         Fin::Out(OpOut::Unit(r))
-                    }
-                    ,
+                    },
                     tok,
+                    nest,
                 )
             }
             OpKind::PollR | OpKind::PollW => {
+                let fdh = OpFd::new(&mine, &probe);
                 let interest = if spec.kind == OpKind::PollR { Interest::Readable } else { Interest::Writable };
-                let sub = rt.submit(PollOnce::new(fdh, interest));
+                let sub = run_sub(rt.submit(PollOnce::new(fdh, interest)), extra);
                 wrap(
                     async move {
                         let BufResult(r, _op) = sub.await;
                         Fin::Out(OpOut::Unit(r))
-                    }
-                    ,
+                    },
                     tok,
+                    nest,
                 )
             }
+            OpKind::RecvMulti => {
+                // exactly what compio-net's `recv_multi` / `read_multi` build: a `SubmitMultiStream`
+                // whose factory submits one managed multishot receive on the runtime's buffer pool
+                // (io_uring: RECV_MULTISHOT with provided buffers; polling: one managed receive
+                // per item), with an instrumented descriptor handle
+                let (rt2, mine2, probe2) = (rt.clone(), mine.clone(), probe.clone());
+                let stream = SubmitMultiStream::new(move || {
+                    let pool = rt2.buffer_pool()?;
+                    let op = RecvMulti::new(OpFd::new(&mine2, &probe2), &pool, 0, RecvFlags::empty())?;
+                    Ok(rt2.submit_multi(op).into_managed(pool))
+                });
+                let s: ItemStream = match (tok.clone(), nest) {
+                    (None, _) | (Some(_), Nest::FutScope) => Box::pin(stream),
+                    (Some(t), Nest::PersCancel | Nest::ExtraPers) => Box::pin(stream.with_personality(0).with_cancel(t)),
+                    (Some(t), Nest::CancelPers) => Box::pin(stream.with_cancel(t).with_personality(0)),
+                    (Some(t), Nest::PersCancelPers) => Box::pin(stream.with_personality(0).with_cancel(t).with_personality(0)),
+                    (Some(t), Nest::Cancel | Nest::Extra | Nest::FailFast) => Box::pin(stream.with_cancel(t)),
+                };
+                let log = self.ops[i].slog.clone();
+                let consumer = async move {
+                    let mut s = s;
+                    while let Some(item) = s.next().await {
+                        log.borrow_mut().push(match item {
+                            Ok(b) => SItem::Data(b.to_vec()),
+                            Err(e) => SItem::Err(e),
+                        });
+                    }
+                    Fin::Out(OpOut::StreamEnd)
+                };
+                // the stream carries its token itself; only `FutScope` puts the scope around the consumer
+                wrap(consumer, if nest == Nest::FutScope { tok } else { None }, Nest::Cancel)
+            }
+        };
+        let fut: OpFut = if spec.task {
+            // the operation lives in a task of the runtime's executor; the harness holds the handle
+            let jh = rt.spawn(fut);
+            Box::pin(async move {
+                match jh.await {
+                    Ok(fin) => fin,
+                    Err(e) => Fin::TaskGone(format!("{e}")),
+                }
+            })
+        } else {
+            fut
         };
         self.ops[i].fut = Some(fut);
         self.ops[i].submitted = true;
         if spec.tok.is_some_and(|k| self.fired[k]) {
             self.ops[i].routes.push("latereg");
             self.reached.push("register_after_fire");
+            self.note_nesting(i, true);
+        }
+        if spec.task {
+            // first poll of the task: the executor's, not the harness's
+            self.transitions += 1;
+            self.rt.run();
         }
         self.poll_op(i);
+        self.drain_logs();
+    }
+
+    /// must-reach bookkeeping of the route dimension "which combinator nesting carried the token"
+    fn note_nesting(&mut self, i: usize, late: bool) {
+        let n = self.sc.ops[i].nest;
+        if n.through_personality() {
+            self.reached.push(if late { "latereg_through_personality_nesting" } else { "token_through_personality_nesting" });
+        }
+        if matches!(n, Nest::Extra | Nest::ExtraPers) {
+            self.reached.push(if late { "latereg_through_extra_nesting" } else { "token_through_extra_nesting" });
+        }
+        if n == Nest::FailFast {
+            self.reached.push(if late { "latereg_through_failfast" } else { "token_through_failfast" });
+        }
+        if n == Nest::FutScope {
+            self.reached.push("token_scope_around_stream_consumer");
+        }
+    }
+
+    /// bytes that left the descriptor `f` and that no operation has reported (yet)
+    fn unreported(&self, f: usize) -> usize {
+        let FdEnv::Stream { mine, written, .. } = &self.fds[f] else { return 0 };
+        let reported: usize = self.chunks[f].iter().map(|c| c.len).sum();
+        written.len().saturating_sub(inq(mine.as_raw_fd())).saturating_sub(reported)
+    }
+
+    /// is stream op `i` the only operation that can have taken bytes nobody reported yet?
+    fn sole_reader(&self, i: usize) -> bool {
+        let f = self.sc.ops[i].fd;
+        (0..self.ops.len()).all(|j| j == i || self.sc.ops[j].fd != f || !self.ops[j].submitted || self.ops[j].result.is_some())
+    }
+
+    /// must-reach bookkeeping: how many chunks had the driver taken from the socket for this stream
+    /// that the consumer had not been given when the cancellation was issued?
+    fn note_untaken(&mut self, i: usize, route: &'static str) {
+        if !self.sc.ops[i].kind.is_stream() || !self.sole_reader(i) {
+            return;
+        }
+        let n = (self.unreported(self.sc.ops[i].fd) / BURST).min(2);
+        let name = match (route, n) {
+            ("token", 0) => "multishot_token_untaken_0",
+            ("token", 1) => "multishot_token_untaken_1",
+            ("token", _) => "multishot_token_untaken_2",
+            ("taskcancel", 0) => "multishot_taskcancel_untaken_0",
+            ("taskcancel", 1) => "multishot_taskcancel_untaken_1",
+            ("taskcancel", _) => "multishot_taskcancel_untaken_2",
+            ("timeout", 0) => "multishot_timeout_untaken_0",
+            ("timeout", _) => "multishot_timeout_untaken_1plus",
+            (_, 0) => "multishot_drop_untaken_0",
+            (_, 1) => "multishot_drop_untaken_1",
+            (..) => "multishot_drop_untaken_2",
+        };
+        self.reached.push(name);
+        if n > 0 {
+            self.reached.push("multishot_cancelled_with_untaken_chunks");
+        }
+        self.trace(|| format!("op{i}: {name}"));
+    }
+
+    /// look at what the stream consumers received since the last look
+    fn drain_logs(&mut self) {
+        for i in 0..self.ops.len() {
+            if !self.sc.ops[i].kind.is_stream() {
+                continue;
+            }
+            let items = std::mem::take(&mut *self.ops[i].slog.borrow_mut());
+            for it in items {
+                match it {
+                    SItem::Data(bytes) => {
+                        if self.ops[i].serrs > 0 {
+                            self.reached.push("stream_data_after_error_item");
+                        }
+                        self.ops[i].sbytes += bytes.len();
+                        self.trace(|| format!("op{i} stream item {bytes:?}"));
+                        self.claim_bytes(i, bytes.len(), &bytes, "stream item");
+                        if self.cancelled(i) {
+                            self.reached.push("cancelled_stream_delivered_reaped_chunk");
+                        }
+                    }
+                    SItem::Err(e) => {
+                        self.ops[i].serrs += 1;
+                        self.trace(|| format!("op{i} stream error item {e:?}"));
+                        if e.is_cancelled() && self.cancelled(i) {
+                            self.reached.push("stream_reported_cancel_error");
+                        }
+                        self.judge_error(i, &e);
+                    }
+                }
+            }
+        }
     }
 
     fn poll_op(&mut self, i: usize) {
@@ -557,8 +731,15 @@ impl<'a> World<'a> {
         self.transitions += 1;
         let r = fut.as_mut().poll(&mut cx);
         self.ops[i].fut = Some(fut);
+        self.drain_logs();
         if let Poll::Ready(fin) = r {
+            let failfast = matches!(fin, Fin::FailFast);
             self.on_result(i, fin);
+            if failfast {
+                // "complete with an error without further polling the inner future": what is left
+                // of the operation can only be dropped - from here on this is the drop route
+                self.ops[i].fut = None;
+            }
         }
     }
 
@@ -589,6 +770,8 @@ impl<'a> World<'a> {
         self.transitions += 1;
         self.rt.poll_with(Some(Duration::ZERO));
         self.rt.run();
+        // operations living in tasks were polled by the executor just now
+        self.drain_logs();
     }
 
     fn progress_stamp(&self) -> (usize, usize) {
@@ -635,6 +818,8 @@ impl<'a> World<'a> {
             if o.tok == Some(k) && self.ops[i].submitted && self.ops[i].result.is_none() && !again {
                 self.ops[i].routes.push("token");
                 self.reached.push("cancel_token");
+                self.note_nesting(i, false);
+                self.note_untaken(i, "token");
             }
         }
         if again {
@@ -649,9 +834,13 @@ impl<'a> World<'a> {
             if self.cancelled(i) {
                 self.reached.push("cancel_again_drop");
             }
-            self.ops[i].routes.push("drop");
+            let task = self.sc.ops[i].task;
+            self.note_untaken(i, if task { "taskcancel" } else { "drop" });
+            // an operation living in a task: dropping the handle cancels the task, the executor
+            // drops the future at its next tick
+            self.ops[i].routes.push(if task { "taskcancel" } else { "drop" });
             self.ops[i].dropped_unfinished = true;
-            self.reached.push("cancel_drop");
+            self.reached.push(if task { "cancel_task" } else { "cancel_drop" });
         } else if self.history.last().map(|s| s.as_str()) != Some("teardown-drop-all") {
             self.reached.push("drop_after_completion");
         }
@@ -681,6 +870,7 @@ impl<'a> World<'a> {
                 if self.cancelled(i) {
                     self.reached.push("cancel_again_timeout");
                 }
+                self.note_untaken(i, "timeout");
                 self.ops[i].routes.push("timeout");
                 self.reached.push("cancel_timeout");
             }
@@ -705,6 +895,53 @@ impl<'a> World<'a> {
                 // the wrapper dropped the inner future: from here on this is the drop route
                 self.ops[i].dropped_unfinished = true;
                 self.reached.push("timeout_elapsed");
+            }
+            Fin::FailFast => {
+                class = "Err(Cancelled-failfast)".to_string();
+                if self.sc.ops[i].nest != Nest::FailFast {
+                    self.vio("honest:failfast-without-failfast", Some(i), "Err(Cancelled) from an op that is not under fail_fast()".into());
+                }
+                let k = spec.tok.unwrap_or(0);
+                if !self.fired.get(k).copied().unwrap_or(false) {
+                    self.vio(
+                        "local:uncancelled-op-got-cancel-error",
+                        Some(i),
+                        format!("op{i}'s fail-fast scope answered Err(Cancelled) although its token tok{k} never fired"),
+                    );
+                } else {
+                    self.reached.push("failfast_answered_cancelled");
+                }
+                self.ops[i].dropped_unfinished = true;
+            }
+            Fin::TaskGone(e) => {
+                class = "TaskJoinError".to_string();
+                self.vio("honest:task-join-error", Some(i), format!("the task op{i} lives in was never cancelled but its JoinHandle returned `{e}`"));
+            }
+            Fin::Out(OpOut::StreamEnd) => {
+                let (nbytes, nerr) = (self.ops[i].sbytes, self.ops[i].serrs);
+                class = format!("End(chunks={},{})", nbytes.div_ceil(BURST).min(3), if nerr > 0 { "after-error-item" } else { "clean" });
+                if !cancelled {
+                    self.vio(
+                        "local:uncancelled-stream-ended",
+                        Some(i),
+                        format!("the stream op{i} was never cancelled and its peer is open, but it ended ({nbytes} bytes, {nerr} error items delivered)"),
+                    );
+                } else {
+                    self.reached.push("cancelled_stream_ended");
+                    // never a clean end that hides loss: everything the stream took from the socket
+                    // must have been handed out before it ends
+                    let lost = if self.sole_reader(i) { self.unreported(spec.fd) } else { 0 };
+                    if lost > 0 {
+                        self.vio(
+                            "honest:stream-end-hides-loss",
+                            Some(i),
+                            format!(
+                                "the cancelled stream op{i} ended ({}) after delivering {nbytes} bytes, but {lost} more bytes had been taken from the socket for it and were never delivered",
+                                if nerr > 0 { "after an error item" } else { "cleanly: no cancellation error, looks like end of stream" }
+                            ),
+                        );
+                    }
+                }
             }
             Fin::Out(OpOut::Data(res, snap)) => match res {
                 Ok(n) => {
@@ -892,17 +1129,19 @@ impl<'a> World<'a> {
             if matches!(self.fds[f], FdEnv::Blackhole { .. }) {
                 continue;
             }
-            let waiting = |w: &Self| {
+            let pending = |w: &Self, streams: bool| {
                 (0..w.ops.len())
                     .filter(|&i| {
                         w.sc.ops[i].fd == f
+                            && w.sc.ops[i].kind.is_stream() == streams
                             && w.ops[i].submitted
                             && !w.cancelled(i)
                             && w.ops[i].fut.is_some()
                             && w.ops[i].result.is_none()
                     })
-                    .count()
+                    .collect::<Vec<usize>>()
             };
+            let waiting = |w: &Self| pending(w, false).len();
             let mut budget = waiting(self) + 1;
             while waiting(self) > 0 && budget > 0 {
                 budget -= 1;
@@ -912,9 +1151,32 @@ impl<'a> World<'a> {
                 self.judge("epilogue");
                 self.reached.push("epilogue_ready");
             }
-            if waiting(self) > 0 {
+            // an uncancelled stream on the same descriptor re-arms itself forever and may win every
+            // race for the data (kernel order): single-shot neighbours may then wait legitimately -
+            // `judge` has checked that the data did not stay in the descriptor
+            if waiting(self) > 0 && pending(self, true).is_empty() {
                 self.vio("local:never-completes", None, format!("fd{f}: uncancelled operations are still pending after the descriptor was made ready repeatedly"));
             }
+            // an uncancelled stream keeps delivering
+            let live = pending(self, true);
+            if !live.is_empty() && waiting(self) == 0 {
+                let before: usize = live.iter().map(|&i| self.ops[i].sbytes).sum();
+                self.history.push(format!("epilogue:Ready({f})/stream"));
+                self.ready(f);
+                self.settle();
+                self.judge("epilogue");
+                let after: usize = live.iter().map(|&i| self.ops[i].sbytes).sum();
+                if after == before + BURST {
+                    self.reached.push("epilogue_stream_delivers");
+                } else {
+                    self.vio(
+                        "local:stream-stalled",
+                        Some(live[0]),
+                        format!("fd{f}: {BURST} fresh bytes were written for the uncancelled pending stream(s) {live:?}, harvested to quiescence, but they delivered {} bytes", after - before),
+                    );
+                }
+            }
+            self.probe_burst(f, "epilogue");
         }
         // whoever is uncancelled and still pending now must be waiting on a blackhole
         for i in 0..self.ops.len() {
@@ -922,6 +1184,38 @@ impl<'a> World<'a> {
                 self.reached.push("uncancelled_stays_pending");
             }
         }
+    }
+
+    /// promptness / locality for streams: once every reader of the descriptor is finished or
+    /// cancelled (and the driver was harvested to quiescence), nothing takes data from it any more -
+    /// in particular not a multishot receive whose stream was cancelled, dropped or has ended
+    fn probe_burst(&mut self, f: usize, at: &str) {
+        let n = self.ops.len();
+        let has_stream = (0..n).any(|i| self.sc.ops[i].fd == f && self.sc.ops[i].kind.is_stream() && self.ops[i].submitted);
+        let reader_left = (0..n).any(|i| {
+            self.sc.ops[i].fd == f && self.ops[i].submitted && self.ops[i].result.is_none() && !self.cancelled(i)
+        });
+        if !has_stream || reader_left {
+            return;
+        }
+        let FdEnv::Stream { mine, .. } = &self.fds[f] else { return };
+        let mine = mine.clone();
+        let before = inq(mine.as_raw_fd());
+        self.history.push(format!("{at}:probe-burst({f})"));
+        self.ready(f);
+        self.settle();
+        let after = inq(mine.as_raw_fd());
+        if after == before + BURST {
+            self.reached.push("cancelled_stream_stopped_consuming");
+        } else {
+            let i = (0..n).find(|&i| self.sc.ops[i].fd == f && self.sc.ops[i].kind.is_stream());
+            self.vio(
+                "prompt:cancelled-stream-still-consuming",
+                i,
+                format!("at {at}: every reader of fd{f} is finished or cancelled and the driver was harvested to quiescence, yet of {BURST} bytes written afterwards only {} stayed in the descriptor", after.saturating_sub(before)),
+            );
+        }
+        self.drain_logs();
     }
 
     fn conservation(&mut self) {
@@ -950,6 +1244,12 @@ impl<'a> World<'a> {
                             }
                         }
                     }
+                    // a stream dropped unfinished (drop / task cancel / elapsed timeout) may take the
+                    // chunks it had not handed out yet with it - pool buffers, nobody can see them
+                    let n_ops = self.ops.len();
+                    let stream_any = (0..n_ops).find(|&i| self.sc.ops[i].fd == f && self.sc.ops[i].kind.is_stream() && self.ops[i].submitted);
+                    let stream_dropped = (0..n_ops)
+                        .any(|i| self.sc.ops[i].fd == f && self.sc.ops[i].kind.is_stream() && self.ops[i].dropped_unfinished);
                     let mut chunks: Vec<(usize, usize, Option<usize>, bool)> =
                         self.chunks[f].iter().map(|c| (c.start, c.len, Some(c.op), c.cap_filled)).collect();
                     chunks.sort();
@@ -961,18 +1261,24 @@ impl<'a> World<'a> {
                     for (start, len, op, cap_filled) in chunks {
                         if start < pos {
                             self.vio("honest:bytes-duplicated", op, format!("stream fd{f}: bytes {start}..{} delivered twice; deliveries {desc:?}", pos.min(start + len)));
+                        } else if start > pos && stream_dropped {
+                            self.reached.push("dropped_stream_swallowed_bytes");
                         } else if start > pos {
-                            self.vio("honest:bytes-lost", op, format!("stream fd{f}: bytes {pos}..{start} were taken from the stream but reported by nobody; deliveries {desc:?} written {written:?}"));
+                            self.vio("honest:bytes-lost", stream_any.or(op), format!("stream fd{f}: bytes {pos}..{start} were taken from the stream but reported by nobody; deliveries {desc:?} written {written:?}"));
                         }
                         pos = pos.max(start + len);
                         if !cap_filled && !boundaries.contains(&(start + len)) {
                             self.vio("local:short-read", op, format!("stream fd{f}: read {start}..{} stops short of the buffer capacity although more bytes were available", start + len));
                         }
                     }
-                    if written[pos.min(written.len())..] != leftover[..] {
+                    let is_tail = leftover.len() <= written.len() - pos.min(written.len())
+                        && written[written.len() - leftover.len()..] == leftover[..];
+                    if written[pos.min(written.len())..] != leftover[..] && is_tail && stream_dropped {
+                        self.reached.push("dropped_stream_swallowed_bytes");
+                    } else if written[pos.min(written.len())..] != leftover[..] {
                         self.vio(
                             "honest:bytes-lost",
-                            None,
+                            stream_any,
                             format!("stream fd{f}: peer wrote {written:?}, operations account for the first {pos} bytes, but the descriptor still holds {leftover:?}; deliveries {desc:?}"),
                         );
                     }
@@ -1038,12 +1344,35 @@ impl<'a> World<'a> {
 
 thread_local! { static OUTER: std::cell::RefCell<Option<CancelToken>> = const { std::cell::RefCell::new(None) }; }
 
-fn wrap(f: impl Future<Output = Fin> + 'static, tok: Option<CancelToken>) -> OpFut {
+/// `rt.submit(op)` as it is (`Submit<T>`) or converted with `.with_extra()` (`Submit<T, Extra>`,
+/// a separate `Future` impl with its own token registration)
+fn run_sub<T: OpCode + 'static>(sub: Submit<T>, extra: bool) -> impl Future<Output = BufResult<usize, T>> {
+    async move { if extra { sub.with_extra().await.0 } else { sub.await } }
+}
+
+/// attach the token through the scenario's combinator nesting (and the optional outer scope)
+fn wrap(f: impl Future<Output = Fin> + 'static, tok: Option<CancelToken>, nest: Nest) -> OpFut {
     let outer = OUTER.with(|o| o.borrow_mut().take());
-    match (tok, outer) {
-        (Some(t), Some(o)) => Box::pin(f.with_cancel(t).with_cancel(o)),
-        (Some(t), None) => Box::pin(f.with_cancel(t)),
-        (None, _) => Box::pin(f),
+    let Some(t) = tok else { return Box::pin(f) };
+    let inner: OpFut = match nest {
+        Nest::Cancel | Nest::Extra | Nest::FutScope => match outer {
+            // (the original shape of `nested-scopes`, kept literally)
+            Some(o) => return Box::pin(f.with_cancel(t).with_cancel(o)),
+            None => Box::pin(f.with_cancel(t)),
+        },
+        Nest::PersCancel | Nest::ExtraPers => Box::pin(f.with_personality(0).with_cancel(t)),
+        Nest::CancelPers => Box::pin(f.with_cancel(t).with_personality(0)),
+        Nest::PersCancelPers => Box::pin(f.with_personality(0).with_cancel(t).with_personality(0)),
+        Nest::FailFast => Box::pin(async move {
+            match f.with_cancel(t).fail_fast().await {
+                Ok(fin) => fin,
+                Err(_) => Fin::FailFast,
+            }
+        }),
+    };
+    match outer {
+        Some(o) => Box::pin(inner.with_cancel(o)),
+        None => inner,
     }
 }
 
@@ -1101,6 +1430,9 @@ pub fn execute(sc: &Scenario, seq: &[Step], cfg: &Config) -> ExecResult {
                     readable_at_submit: false,
                     ready_after_submit: 0,
                     dropped_unfinished: false,
+                    slog: Rc::new(RefCell::new(Vec::new())),
+                    sbytes: 0,
+                    serrs: 0,
                 }
             })
             .collect();
@@ -1159,6 +1491,9 @@ pub fn execute(sc: &Scenario, seq: &[Step], cfg: &Config) -> ExecResult {
         }
         w.settle();
         w.judge("teardown");
+        for f in 0..w.fds.len() {
+            w.probe_burst(f, "teardown");
+        }
         w.tokens.clear();
         w.conservation();
         let fds = std::mem::take(&mut w.fds);
